@@ -8,6 +8,7 @@
 import Core.Props.C08conv
 import Core.Props.C05hist
 import Core.Lemmas.Window
+import Core.Lemmas.ForkRound
 open Std
 
 set_option maxRecDepth 100000
@@ -162,6 +163,96 @@ instance (cfg : Cfg) (a b : Block) : Decidable (BlockStep cfg a b) := by
   unfold BlockStep
   exact inferInstance
 
+/-- **the first round of a node with one or two blocks** (no incremental phase: it asks every neighbour for the chain
+    from height 0 and gets the first page): every outcome holds exactly the first page of `C` -/
+theorem C08_short_start_round (env : Env) (cfg : Cfg) (hI : 0 < cfg.interval) (anyhost : Ledger) (C : List Block)
+    (p : Nat) (targets : List String) (now : Int) (hp : 3 ≤ p) (hC : Shape cfg C) (hL : 3 ≤ C.length)
+    (hne : targets ≠ []) (ht : ∀ t ∈ targets, t ≠ "host")
+    (hfull : Ledger.verify env cfg anyhost [] C [] now = .ok C)
+    (host : Ledger) (k : Nat) (hk1 : 1 ≤ k) (hk2 : k ≤ 2) (hb : host.blocks = C.take k) :
+    ∀ l ∈ Sync.outcomes env cfg host now (C08.honestResps C p k targets), l.blocks = C.take (min C.length p) := by
+  have hklen : host.blocks.length = k := by rw [hb, List.length_take]; omega
+  have hpage : Ledger.page p C 0 = C.take p := by
+    rw [C08_page_spec, if_pos (by omega)]; simp
+  have hmin : C.take (min C.length p) = C.take p := by
+    rcases Nat.le_total C.length p with h | h
+    · rw [Nat.min_eq_left h, List.take_of_length_le h, List.take_of_length_le (Nat.le_refl _)]
+    · rw [Nat.min_eq_right h]
+  have hXlen : (C.take p).length = min p C.length := List.length_take
+  have hacc : Ledger.verify env cfg host host.blocks.dropLast (C.take p) [] now = .ok (C.take p) := by
+    have hsplit : C = C.take p ++ C.drop p := (List.take_append_drop p C).symm
+    have h1 : Ledger.verify env cfg anyhost [] (C.take p ++ C.drop p) [] now = .ok (C.take p ++ C.drop p) := by
+      rw [← hsplit]; exact hfull
+    exact verify_full_any host host.blocks.dropLast (verify_prefix_of_full hI (by rw [hXlen]; omega) h1)
+  have hne' : C08.honestResps C p k targets ≠ [] := by
+    intro e; apply hne
+    simpa [C08.honestResps] using e
+  have hresp : ∀ r ∈ C08.honestResps C p k targets, r.second = some (C.take p) := by
+    intro r hr
+    simp only [C08.honestResps, List.mem_map] at hr
+    obtain ⟨t, _, rfl⟩ := hr
+    show some (Ledger.page p C 0) = _
+    rw [hpage]
+  have hshape : Shape cfg (C.take p) := by
+    intro i a b ha hb'
+    rw [List.getElem?_take] at ha hb'
+    split at ha
+    · split at hb'
+      · exact hC i a b ha hb'
+      · cases hb'
+    · cases ha
+  rw [hmin]
+  exact ProgressL.uniform_round_fork (by omega) (by omega) hne' (C08.honest_targets ht) hresp hacc
+    (by rw [hXlen, hklen]; omega) (ProgressL.age_pos_of_shape hshape (by rw [hXlen]; omega))
+
+/-- **C08 from a start of one or two blocks**: one round through the full-verification phase reaches the first page,
+    then `C08_convergence_accepted` — `1 + j` rounds reach `iter j (min |C| p)` blocks; with
+    `C08_convergence_rounds`, `1 + ⌈|C| / (p − 1)⌉` rounds reach `C`: the bound of the property -/
+theorem C08_convergence_short_start (env : Env) (cfg : Cfg) (hI : 0 < cfg.interval) (anyhost : Ledger) (C : List Block)
+    (p : Nat) (targets : List String) (t0 : Int)
+    (hp : 3 ≤ p) (hC : Shape cfg C) (hL : 3 ≤ C.length) (hne : targets ≠ []) (ht : ∀ t ∈ targets, t ≠ "host")
+    (hfull : AcceptedFrom env cfg anyhost [] C t0) :
+    ∀ (j k : Nat) (l l' : Ledger), 1 ≤ k → k ≤ 2 → l.blocks = C.take k → Derived l →
+      C08.RoundsFrom env cfg C p targets t0 (j + 1) l l' →
+      l'.blocks = C.take (C08.iter C.length p j (min C.length p)) ∧ Derived l' := by
+  intro j k l l' hk1 hk2 hl hd hr
+  cases hr with
+  | succ hround hrest =>
+    rename_i l1
+    have hklen : l.blocks.length = k := by rw [hl, List.length_take]; omega
+    obtain ⟨now, hnow, hm⟩ := hround
+    rw [hklen] at hm
+    have hd1 : Derived l1 := outcomes_derived env cfg l now _ hd l1 hm
+    have hb1 : l1.blocks = C.take (min C.length p) :=
+      C08_short_start_round env cfg hI anyhost C p targets now hp hC hL hne ht (hfull now hnow) l k hk1 hk2 hl l1 hm
+    exact C08_convergence_accepted env cfg hI anyhost C p targets t0 (by omega) hC hne ht hfull j
+      (min C.length p) l1 l' (by omega) (Nat.min_le_left _ _) hb1 hd1 hrest
+
+/-- **C08, the bound of the property, for every admissible prefix start.**  A derived node holding ANY non-empty prefix
+    of `C` (one block included) holds exactly `C` after `1 + ⌈|C| / (p − 1)⌉` rounds held at times from `t0` on,
+    whatever the times, the number of honest neighbours and the map order, with the state of every node that holds `C`
+    (`Derived` + `C08_same_chain_same_state`); page size at least 3, `C` shaped with at least three blocks and
+    acceptable from height 0 from `t0` on. -/
+theorem C08_converges_within_bound (env : Env) (cfg : Cfg) (hI : 0 < cfg.interval) (anyhost : Ledger) (C : List Block)
+    (p : Nat) (targets : List String) (t0 : Int)
+    (hp : 3 ≤ p) (hC : Shape cfg C) (hL : 3 ≤ C.length) (hne : targets ≠ []) (ht : ∀ t ∈ targets, t ≠ "host")
+    (hfull : AcceptedFrom env cfg anyhost [] C t0) :
+    ∀ (k : Nat) (l l' : Ledger), 1 ≤ k → k ≤ C.length → l.blocks = C.take k → Derived l →
+      C08.RoundsFrom env cfg C p targets t0 ((C.length + (p - 2)) / (p - 1) + 1) l l' →
+      l'.blocks = C ∧ Derived l' := by
+  intro k l l' hk1 hkL hl hd hr
+  by_cases hk3 : 3 ≤ k
+  · obtain ⟨hb, hd'⟩ := C08_convergence_accepted env cfg hI anyhost C p targets t0 (by omega) hC hne ht hfull _ k l l'
+      hk3 hkL hl hd hr
+    refine ⟨?_, hd'⟩
+    rw [hb]
+    show C.take (C08.iter C.length p ((C.length + (p - 2)) / (p - 1)) (min C.length (k - 1 + p))) = C
+    rw [C08_convergence_rounds C.length p _ (by omega) (by omega) (Nat.min_le_left _ _), List.take_length]
+  · obtain ⟨hb, hd'⟩ := C08_convergence_short_start env cfg hI anyhost C p targets t0 hp hC hL hne ht hfull _ k l l'
+      hk1 (by omega) hl hd hr
+    refine ⟨?_, hd'⟩
+    rw [hb, C08_convergence_rounds C.length p _ (by omega) (by omega) (Nat.min_le_left _ _), List.take_length]
+
 /-- a solo producer's history keeps the chain shaped (C04): `SoloStep` ticks are aligned and never on a tip dated 0 -/
 theorem solo_shape (env : Env) (cfg : Cfg) (hmin : 1 ≤ cfg.minFee) (hinj : Function.Injective env.hash)
     (hI : 0 ≤ cfg.interval) :
@@ -280,5 +371,69 @@ example : ∃ l', C08.RoundsFrom env cfg C5 2 ["p:1"] 300 1 n3.led l' ∧ l'.blo
   refine ⟨l', hrounds, ?_, this.2⟩
   rw [this.1]
   decide
+
+open C08ex in
+/-- **non-vacuity of `C08_converges_within_bound`**: the node that holds only the FIRST block of the five-block chain,
+    pages of 3, one honest neighbour: four rounds at time 400 exist (each an outcome of the model's `Sync.outcomes`),
+    and the theorem gives exactly the five-block chain -/
+example : ∃ l', C08.RoundsFrom env cfg C5 3 ["p:1"] 300 ((C5.length + (3 - 2)) / (3 - 1) + 1)
+      (Ru.run env cfg Node.empty [.tick 60 [] "r0"]).led l' ∧ l'.blocks = C5 := by
+  have hacc3 : AcceptedFrom env cfg Node.empty.led [] n3.led.blocks n3.led.lastTs := by
+    intro now hnow
+    have h0 : Ledger.verify env cfg Node.empty.led [] n3.led.blocks [] 180 = .ok n3.led.blocks := by rfl
+    exact Ledger.agree_verify_mono h0 (by have : n3.led.lastTs = 180 := by decide
+                                          omega)
+  have hw : ∀ o ∈ ([.submit C05ex.tx, .tick 240 [C05ex.tx] "r3", .tick 300 [] "r4"] : List Op), o.WF := by
+    intro o ho
+    simp only [List.mem_cons, List.mem_nil_iff, or_false] at ho
+    rcases ho with rfl | rfl | rfl
+    · simp only [Op.WF]; decide
+    · simp [Op.WF]
+    · simp [Op.WF]
+  have ha : Along env cfg (SoloStep cfg) n3 [.submit C05ex.tx, .tick 240 [C05ex.tx] "r3", .tick 300 [] "r4"] := by
+    refine ⟨trivial, ?_, ?_, trivial⟩
+    · show SoloStep cfg (Ru.step env cfg n3 (.submit C05ex.tx)) (.tick 240 [C05ex.tx] "r3")
+      simp only [SoloStep]
+      refine ⟨by decide, by decide, by decide, by decide, by decide, by decide⟩
+    · show SoloStep cfg (Ru.step env cfg (Ru.step env cfg n3 (.submit C05ex.tx)) (.tick 240 [C05ex.tx] "r3")) (.tick 300 [] "r4")
+      simp only [SoloStep]
+      refine ⟨by decide, by decide, by decide, by decide, by decide, by decide⟩
+  have hfull : AcceptedFrom env cfg Node.empty.led [] C5 300 := by
+    have h := C05_solo_history env cfg (by decide) (by decide) Node.empty.led [] _ n3 C05ex.reach3 hw ha hacc3
+    have e : (Ru.run env cfg n3 [.submit C05ex.tx, .tick 240 [C05ex.tx] "r3", .tick 300 [] "r4"]).led.lastTs = 300 := by decide
+    rw [e] at h
+    exact h
+  have hshape : Shape cfg C5 := shape_of_shapeB cfg C5 (by decide)
+  have hreach1 : Reachable env cfg (Ru.run env cfg Node.empty [.tick 60 [] "r0"]) :=
+    ⟨[.tick 60 [] "r0"], by simp [Op.WF], rfl⟩
+  -- four rounds, each the first outcome of the model
+  have round : ∀ (l : Ledger), ∃ l1, (Sync.outcomes env cfg l 400 (C08.honestResps C5 3 l.blocks.length ["p:1"]))[0]? = some l1 := by
+    intro l
+    have : (Sync.outcomes env cfg l 400 (C08.honestResps C5 3 l.blocks.length ["p:1"])) ≠ [] := by
+      unfold Sync.outcomes
+      simp only []
+      split
+      · simp
+      · rename_i hne
+        cases h : Sync.selectionSet (Sync.choose env cfg l 400 (C08.honestResps C5 3 l.blocks.length ["p:1"])) with
+        | nil => exact absurd h hne
+        | cons a as => simp
+    cases h : (Sync.outcomes env cfg l 400 (C08.honestResps C5 3 l.blocks.length ["p:1"])) with
+    | nil => exact absurd h this
+    | cons a as => exact ⟨a, by simp⟩
+  obtain ⟨l1, h1⟩ := round (Ru.run env cfg Node.empty [.tick 60 [] "r0"]).led
+  obtain ⟨l2, h2⟩ := round l1
+  obtain ⟨l3, h3⟩ := round l2
+  obtain ⟨l4, h4⟩ := round l3
+  have hrounds : C08.RoundsFrom env cfg C5 3 ["p:1"] 300 4 (Ru.run env cfg Node.empty [.tick 60 [] "r0"]).led l4 :=
+    .succ ⟨400, by decide, List.mem_of_getElem? h1⟩ (.succ ⟨400, by decide, List.mem_of_getElem? h2⟩
+      (.succ ⟨400, by decide, List.mem_of_getElem? h3⟩ (.succ ⟨400, by decide, List.mem_of_getElem? h4⟩ (.zero l4))))
+  have hlen : (C5.length + (3 - 2)) / (3 - 1) + 1 = 4 := by decide
+  rw [hlen]
+  refine ⟨l4, hrounds, ?_⟩
+  have := C08_converges_within_bound env cfg (by decide) Node.empty.led C5 3 ["p:1"] 300 (by decide) hshape (by decide)
+    (by simp) (by simp) hfull 1 _ l4 (by decide) (by decide) (by decide) (C07_invariant env cfg _ hreach1)
+    (by rw [hlen]; exact hrounds)
+  exact this.1
 
 end Ru
